@@ -312,7 +312,7 @@ class PPingPong(Pattern):
 
         return rv
 
-class PCreep(Pattern):
+class PCreep(PStochasticPattern):
     """ PCreep: Loop `length`-note segment, progressing `creep` notes after `repeats` repeats.
 
         >>> p = PCreep(PSeries(), 3, 1, 2)
@@ -321,6 +321,7 @@ class PCreep(Pattern):
         """
 
     def __init__(self, pattern: Pattern, length: int = 4, creep: int = 1, repeats: int = 1, prob: float = 1):
+        super().__init__()
         self.pattern = pattern
         self.length = length
         self.creep = creep
@@ -349,7 +350,7 @@ class PCreep(Pattern):
             self.buffer.pop(0)
 
         if self.pos >= len(self.buffer):
-            repeat = random.uniform(0, 1) < prob
+            repeat = self.rng.uniform(0, 1) < prob
 
             if self.rcount >= repeats or not repeat:
                 #------------------------------------------------------------------------
